@@ -1,6 +1,7 @@
 """C06 - rule verdicts match the documented condition (Spec/RuleSpec.v over the block structure of the spec model CM)."""
 import collections
 import itertools
+import zlib
 
 import cm
 import core
@@ -50,7 +51,7 @@ CONFIGS = {
 
 W = ["# a", "## b", "### c.", "#d", "#  e", " # f", "a", "", "long line with words xx", "averyveryverylongwordwithoutspaces", "tail  ", "tail ", "tail   ",
      "```", "```py", "~~~", "    code", "    long code line with words", "---", "***", "- - -", "===", "a b c d e f g h i j", "- item", "> quote", "1. one",
-     "``` ", "# a #", "## long heading with words yy", "  - sub", "   text", "# a", "Setext", "> # q", "- ## l", "  ", "##"]
+     "``` ", "# a #", "## long heading with words yy", "  - sub", "   text", "# a", "Setext", "> # q", "- ## l", "  ", "##", "+ p", "* s", "  + t", "## a", "### a", "#### d", "##### e"]
 
 
 def spec_params(c):
@@ -136,7 +137,15 @@ def run(ctx):
     cnames = list(CONFIGS)
     jobs = []
     for i in good:
-        cs = cnames if ctx.tier == "thorough" or origin[i] == "W<=2" else ["default", cnames[1 + (hash(docs[i]) + ctx.seed) % (len(cnames) - 1)]]
+        n_other = len(cnames) - 1
+        k = zlib.crc32(docs[i].encode("utf-8", "surrogatepass")) + ctx.seed
+        if origin[i] == "W<=2":
+            cs = cnames
+        elif ctx.tier == "thorough":
+            # every configuration for the short documents; the default and two others (fixed per document) for the rest
+            cs = ["default", cnames[1 + k % n_other], cnames[1 + (k % n_other + 1 + (k // 7) % (n_other - 1)) % n_other]]
+        else:
+            cs = ["default", cnames[1 + k % n_other]]
         for c in cs:
             jobs.append((i, c))
     reqs = []
@@ -197,7 +206,7 @@ def run(ctx):
     ]
     return ctx.finish(
         level="other",
-        rule="documents of <= 3 lines over a 42-template vocabulary of headings, long lines, trailing spaces, fences, breaks and containers, a fixed 30000-document sample of 4-line documents, 3-line documents over the general 60-template vocabulary; each under 6 configurations (default + 5 that move every documented configuration item); quick = seed-selected subsets, each document under the default and one other configuration; non-trivial = a case in which some rule reports or must report; distinct by (document, configuration)",
+        rule="documents of <= 3 lines over a 44-template vocabulary of headings, long lines, trailing spaces, fences, breaks and containers, a fixed 30000-document sample of 4-line documents, 3-line documents over the general 60-template vocabulary; documents of <= 2 lines under all 6 configurations (default + 5 that move every documented configuration item), the others under the default and two more; quick = seed-selected subsets, each document under the default and one other configuration; non-trivial = a case in which some rule reports or must report; distinct by (document, configuration)",
         assumptions=["inside F (no inline markup, no HTML, no tabs, no link definitions); rules MD010, MD042, MD045 are outside this specification", "md013.stern, md009.list_item_empty_lines, md003.allow-setext-update and front-matter titles are not varied"],
         extra_cov={"exhaustive": ctx.tier == "thorough", "explanation": "theorems are about the specification (what its verdicts mean, for all documents); that each rule implements its specification is decided by comparing reported lines on enumerated documents and configurations"},
     )
